@@ -494,6 +494,13 @@ class CodeGenerator(NodeVisitor):
             for k in chain((x.key for x in node.kwargs), extra_kwargs or ())
         )
 
+        for kwarg in node.kwargs:
+            if extra_kwargs is not None and kwarg.key in extra_kwargs:
+                self.fail(
+                    f"keyword argument {kwarg.key!r} is reserved in this call",
+                    node.lineno,
+                )
+
         for arg in node.args:
             self.write(", ")
             self.visit(arg, frame)
